@@ -12,12 +12,12 @@ git apply "$src/patch.diff" || { echo "$id: patch does not apply"; exit 1; }
 go build ./... >>$log 2>&1 || { echo "$id: does not build"; git checkout -q -- .; exit 1; }
 demo=$(ls "$src"/demo*_test.go 2>/dev/null | head -1)
 mkdir -p "$pkg"; cp "$demo" "$pkg/zz_seeded_demo_test.go"
-env $denv go test $dflags -count=1 -run 'Demo|C[0-9][0-9]|Seeded|Test' "./$pkg/" >>$log 2>&1 ; with=$?
+env $denv go test $dflags -count=1 -run "${DEMOPAT:-Demo|C[0-9][0-9]|Seeded|Test}" "./$pkg/" >>$log 2>&1 ; with=$?
 rm -f "$pkg/zz_seeded_demo_test.go"
 suite=$(go test -count=1 ./... 2>&1 | grep -E "^(FAIL|--- FAIL|ok|panic)" | grep -v "^ok" | grep -v -E "TestSign \(|TestSignWithDigest|TestSignWithOpenSSLAndVerify|^FAIL$|FAIL\sgithub.com/emmansun/gmsm/pkcs7" )
 git checkout -q -- . ; git clean -fdq
 mkdir -p "$pkg"; cp "$demo" "$pkg/zz_seeded_demo_test.go"
-env $denv go test $dflags -count=1 -run 'Demo|C[0-9][0-9]|Seeded|Test' "./$pkg/" >>$log 2>&1 ; without=$?
+env $denv go test $dflags -count=1 -run "${DEMOPAT:-Demo|C[0-9][0-9]|Seeded|Test}" "./$pkg/" >>$log 2>&1 ; without=$?
 rm -f "$pkg/zz_seeded_demo_test.go"
 git checkout -q -- . ; git clean -fdq
 echo "$id: demo with change exit=$with (want !=0), without exit=$without (want 0), unexpected suite failures: [${suite}]"
